@@ -1,16 +1,20 @@
 #!/usr/bin/env python3
-"""C06 driver: (1) libFuzzer+ASan target c06_ops, (2) the proptest checks of C01, C04, C05, C07 rebuilt with
-AddressSanitizer and run in child processes; a child killed by the sanitizer (or a hardware fault on a
-misaligned aligned access) is a C06 violation, and the case it died in is recovered from a trace file.
+"""C06 driver: (1) libFuzzer+ASan target c06_ops, (2) the proptest checks of C01-C05, C07, C08 rebuilt with
+AddressSanitizer and run in child processes, (3) the same checks rebuilt with the guard allocator
+(harness/lmcheck/src/guard.rs: guard bytes around every heap block, verified when it is freed) - the engine
+for out-of-bounds WRITES of the SIMD kernels, whose non-temporal stores are inline asm and invisible to the
+sanitizer. A child killed by the sanitizer / the guard allocator (or a hardware fault on a misaligned aligned
+access) is a C06 violation, and the case it died in is recovered from a trace file.
 
   c06.py quick|thorough
-  c06.py replay <replays/C06/asan-*.json>
+  c06.py replay <replays/C06/asan-*.json | replays/C06/guard-*.json>
 """
 import glob, hashlib, json, os, re, shutil, subprocess, sys, time
 
 VERIF = os.path.dirname(os.path.dirname(os.path.abspath(__file__)))
 HARNESS = os.path.join(VERIF, "harness")
 ASAN_BIN = os.path.join(HARNESS, "target-asan", "x86_64-unknown-linux-gnu", "asan", "lmcheck")
+GUARD_BIN = os.path.join(HARNESS, "target-guard", "release", "lmcheck")
 ENV = dict(os.environ, CARGO_NET_OFFLINE="true", ASAN_OPTIONS="detect_leaks=0:abort_on_error=1:symbolize=1")
 PROPS = ["C01", "C02", "C03", "C04", "C05", "C07", "C08"]
 
@@ -25,11 +29,23 @@ def build_asan():
         sys.exit(2)
 
 
+def build_guard():
+    r = subprocess.run(["cargo", "build", "--offline", "--release", "-p", "lmcheck", "--features", "guard-alloc",
+                        "--target-dir", os.path.join(HARNESS, "target-guard")], cwd=HARNESS, env=ENV, stdout=subprocess.PIPE, stderr=subprocess.STDOUT, text=True)
+    if r.returncode != 0:
+        sys.stderr.write(r.stdout[-4000:])
+        print("BUILD FAILED (inconclusive, not a violation): guard-allocator build of lmcheck", file=sys.stderr)
+        sys.exit(2)
+
+
 def crashed(rc, out):
-    return rc not in (0, 1, 2) or "AddressSanitizer" in out or "SIGSEGV" in out or "SIGBUS" in out
+    return rc not in (0, 1, 2) or "AddressSanitizer" in out or "GUARD-ALLOC:" in out or "SIGSEGV" in out or "SIGBUS" in out
 
 
 def signature(out):
+    m = re.search(r"GUARD-ALLOC: .* guard bytes overwritten (before|after) the block", out)
+    if m:
+        return "guard-alloc:write-%s-heap-block" % m.group(1)
     m = re.search(r"SUMMARY: AddressSanitizer: (\S+)", out)
     frames = re.findall(r"#\d+ 0x[0-9a-f]+ in (\S*lightmotif\S*) (/repo/[^\s:]+)", out) or re.findall(r"#\d+ 0x[0-9a-f]+ in (\S*lightmotif\S*)()", out)
     if m:
@@ -42,13 +58,17 @@ def signature(out):
 
 
 def replay(path):
-    build_asan()
-    r = subprocess.run([ASAN_BIN, "replay", path], env=dict(ENV, VERIF_DIR=VERIF), stdout=subprocess.PIPE, stderr=subprocess.STDOUT, text=True, errors="replace")
+    guard = os.path.basename(path).startswith("guard-")
+    if guard:
+        build_guard()
+    else:
+        build_asan()
+    r = subprocess.run([GUARD_BIN if guard else ASAN_BIN, "replay", path], env=dict(ENV, VERIF_DIR=VERIF), stdout=subprocess.PIPE, stderr=subprocess.STDOUT, text=True, errors="replace")
     if crashed(r.returncode, r.stdout):
         print(signature(r.stdout))
         print("VIOLATION property=C06 replay=%s" % path)
         return 1
-    print("PASS property=C06 (no memory error under AddressSanitizer)")
+    print("PASS property=C06 (no memory error under %s)" % ("the guard allocator" if guard else "AddressSanitizer"))
     return 0
 
 
@@ -59,59 +79,76 @@ def main():
     t0 = time.time()
     rc_fuzz = subprocess.run([sys.executable, os.path.join(VERIF, "bin", "fuzzrun.py"), "C06", tier]).returncode
     build_asan()
+    build_guard()
     work = os.path.join(HARNESS, "asan-work-%d" % os.getpid())
     shutil.rmtree(work, ignore_errors=True)
     os.makedirs(os.path.join(work, "trace"))
+    # the children write replays / evidence into the scratch directory, but they need the committed known
+    # findings and their regression inputs: without them the open finding KF06 stops C02 / C03 / C08 at their
+    # first u8-wrap case and next to nothing is explored under the sanitizer
+    shutil.copy(os.path.join(VERIF, "known_findings.json"), work)
+    shutil.copytree(os.path.join(VERIF, "regress"), os.path.join(work, "regress"))
     violations, cases, per_prop = 0, 0, {}
+    guard_cases, guard_per_prop = 0, {}
     try:
         known = [f for f in json.load(open(os.path.join(VERIF, "known_findings.json")))["findings"] if f["property"] == "C06" and f["status"] == "open"]
     except Exception:
         known = []
-    # committed regression cases of this part
-    for f in sorted(glob.glob(os.path.join(VERIF, "regress", "C06", "asan-*.json"))):
-        r = subprocess.run([ASAN_BIN, "replay", f], env=dict(ENV, VERIF_DIR=work), stdout=subprocess.PIPE, stderr=subprocess.STDOUT, text=True, errors="replace")
-        if crashed(r.returncode, r.stdout):
-            sig = signature(r.stdout)
-            k = next((x for x in known if sig in x["signatures"]), None)
-            if k:
-                print("KNOWN-FINDING: property=C06 %s [%s]" % (k["what"], k["id"]))
-            else:
-                print("[C06/asan-proptest] %s" % sig)
-                print("VIOLATION property=C06 replay=%s" % f)
-                violations += 1
+    reported = set()
+    # committed regression cases of this part (asan-*.json under the sanitizer, guard-*.json under the guard allocator)
+    for prefix, binary in (("asan", ASAN_BIN), ("guard", GUARD_BIN)):
+        for f in sorted(glob.glob(os.path.join(VERIF, "regress", "C06", prefix + "-*.json"))):
+            r = subprocess.run([binary, "replay", f], env=dict(ENV, VERIF_DIR=work), stdout=subprocess.PIPE, stderr=subprocess.STDOUT, text=True, errors="replace")
+            if crashed(r.returncode, r.stdout):
+                sig = signature(r.stdout)
+                k = next((x for x in known if sig in x["signatures"]), None)
+                if k:
+                    print("KNOWN-FINDING: property=C06 %s [%s]" % (k["what"], k["id"]))
+                else:
+                    print("[C06/%s-proptest] %s" % (prefix, sig))
+                    print("VIOLATION property=C06 replay=%s" % f)
+                    violations += 1
     scale = {"quick": "0.25", "thorough": "2"}[tier]
-    for p in PROPS:
-        env = dict(ENV, VERIF_DIR=work, LMCHECK_TRACE=os.path.join(work, "trace"), VERIF_SCALE=os.environ.get("VERIF_C06_SCALE", scale))
-        r = subprocess.run([ASAN_BIN, p, "quick"], env=env, stdout=subprocess.PIPE, stderr=subprocess.STDOUT, text=True, errors="replace")
-        n = sum(int(a) + int(b) for a, b in re.findall(r"random=(\d+) sweep=(\d+)", r.stdout))
-        cases += n
-        per_prop[p] = n
-        if crashed(r.returncode, r.stdout):
-            sig = signature(r.stdout)
-            # which case was being checked? replay the traced candidates
-            culprit = None
-            for t in sorted(glob.glob(os.path.join(work, "trace", p + "-*.json"))):
-                rr = subprocess.run([ASAN_BIN, "replay", t], env=dict(ENV, VERIF_DIR=work), stdout=subprocess.PIPE, stderr=subprocess.STDOUT, text=True, errors="replace")
-                if crashed(rr.returncode, rr.stdout):
-                    culprit = t
-                    sig = signature(rr.stdout)
-                    break
-            dst_dir = os.path.join(VERIF, "replays", "C06")
-            os.makedirs(dst_dir, exist_ok=True)
-            if culprit:
-                data = open(culprit, "rb").read()
-                dst = os.path.join(dst_dir, "asan-%s-%s.json" % (p, hashlib.sha1(data).hexdigest()[:16]))
-                shutil.copy(culprit, dst)
+    for prefix, binary in (("asan", ASAN_BIN), ("guard", GUARD_BIN)):
+        for p in PROPS:
+            shutil.rmtree(os.path.join(work, "trace"), ignore_errors=True)
+            os.makedirs(os.path.join(work, "trace"))
+            env = dict(ENV, VERIF_DIR=work, LMCHECK_TRACE=os.path.join(work, "trace"), VERIF_SCALE=os.environ.get("VERIF_C06_SCALE", scale))
+            r = subprocess.run([binary, p, "quick"], env=env, stdout=subprocess.PIPE, stderr=subprocess.STDOUT, text=True, errors="replace")
+            n = sum(int(a) + int(b) for a, b in re.findall(r"random=(\d+) sweep=(\d+)", r.stdout))
+            if prefix == "asan":
+                cases += n
+                per_prop[p] = n
             else:
-                dst = os.path.join(dst_dir, "asan-%s-unlocated.log" % p)
-                open(dst, "w").write(r.stdout[-20000:])
-            k = next((x for x in known if sig in x["signatures"]), None)
-            if k:
-                print("KNOWN-FINDING: property=C06 %s [%s]" % (k["what"], k["id"]))
-            else:
-                print("[C06/asan-proptest:%s] %s" % (p, sig))
-                print("VIOLATION property=C06 replay=%s" % dst)
-                violations += 1
+                guard_cases += n
+                guard_per_prop[p] = n
+            if crashed(r.returncode, r.stdout):
+                sig = signature(r.stdout)
+                # which case was being checked? replay the traced candidates
+                culprit = None
+                for t in sorted(glob.glob(os.path.join(work, "trace", p + "-*.json"))):
+                    rr = subprocess.run([binary, "replay", t], env=dict(ENV, VERIF_DIR=work), stdout=subprocess.PIPE, stderr=subprocess.STDOUT, text=True, errors="replace")
+                    if crashed(rr.returncode, rr.stdout):
+                        culprit = t
+                        sig = signature(rr.stdout)
+                        break
+                dst_dir = os.path.join(VERIF, "replays", "C06")
+                os.makedirs(dst_dir, exist_ok=True)
+                if culprit:
+                    data = open(culprit, "rb").read()
+                    dst = os.path.join(dst_dir, "%s-%s-%s.json" % (prefix, p, hashlib.sha1(data).hexdigest()[:16]))
+                    shutil.copy(culprit, dst)
+                else:
+                    dst = os.path.join(dst_dir, "%s-%s-unlocated.log" % (prefix, p))
+                    open(dst, "w").write(r.stdout[-20000:])
+                k = next((x for x in known if sig in x["signatures"]), None)
+                if k:
+                    print("KNOWN-FINDING: property=C06 %s [%s]" % (k["what"], k["id"]))
+                elif (prefix, sig) not in reported:
+                    reported.add((prefix, sig))
+                    print("[C06/%s-proptest:%s] %s" % (prefix, p, sig))
+                    print("VIOLATION property=C06 replay=%s" % dst)
+                    violations += 1
     shutil.rmtree(work, ignore_errors=True)
     # merge into the evidence written by fuzzrun.py
     ev_path = os.path.join(VERIF, "evidence", "C06.json")
@@ -120,12 +157,16 @@ def main():
     cov["evaluations"] += cases
     cov["asan_proptest"] = {"cases_run_under_asan": cases, "per_property": per_prop,
                             "what": "the generated checks of C01 (scoring), C02/C03 (scanner), C04 (striping histories), C05 (encoding), C07 (maxima), C08 (8-bit kernels) rebuilt with -Zsanitizer=address and debug assertions, run in child processes; a child killed by the sanitizer is a C06 violation"}
+    cov["evaluations"] += guard_cases
+    cov["guard_proptest"] = {"cases_run_under_the_guard_allocator": guard_cases, "per_property": guard_per_prop,
+                             "what": "the same generated checks rebuilt with a guard allocator (2048 pattern bytes before and after every heap block, verified when the block is freed): observes out-of-bounds WRITES of the SIMD kernels, whose non-temporal stores (_mm256_stream_ps / _mm256_stream_si256 / _mm_stream_ps) are inline asm in core::arch and are not instrumented by AddressSanitizer"}
+    cov["rule"] += " || [guard-proptest] the same generators re-run under the guard allocator"
     cov["rule"] += " || [asan-proptest] C01/C02/C03/C04/C05/C07/C08 generators re-run under AddressSanitizer (counted in evaluations, not in distinct_nontrivial)"
     ev["violations"] = ev.get("violations", 0) + violations
     ev["wall_s"] = round(time.time() - t0, 3)
     ev["tier"] = tier
     json.dump(ev, open(ev_path, "w"), indent=1)
-    print("[C06/asan-proptest] cases=%d %s violations=%d (%.1fs)" % (cases, per_prop, violations, time.time() - t0), file=sys.stderr)
+    print("[C06/asan-proptest] cases=%d %s [C06/guard-proptest] cases=%d %s violations=%d (%.1fs)" % (cases, per_prop, guard_cases, guard_per_prop, violations, time.time() - t0), file=sys.stderr)
     if violations or rc_fuzz == 1:
         sys.exit(1)
     sys.exit(2 if rc_fuzz == 2 else 0)
